@@ -11,7 +11,7 @@ from ..ref import utf8 as refutf8
 
 LEVEL = 'exploration'
 BUDGET_S = {'quick': 35, 'thorough': 280}
-REQUIRED = {'all': ['oracle.violation_runs_judged', 'sweep.headers_judged']}
+REQUIRED = {'all': ['oracle.violation_runs_judged', 'sweep.headers_judged', 'oracle.violation_while_client_closing_runs']}
 RULE = ('(a) exhaustive sweep of all 65536 two-byte frame headers, each completed into a frame and fed '
         'to the real client in a context (fresh / inside a fragmented text message / fresh with '
         'permessage-deflate negotiated); outcome {accepted, ProtocolError} compared with the RFC 6455 '
@@ -135,6 +135,14 @@ def violation_frames(cls, p, in_fragment, compression):
             return None
         # a valid lead byte in one fragment, a wrong continuation in the next
         return F(1, VM + b'\xe2', fin=0) + F(0, b'\x28\xa1' + VM, fin=1)
+    if cls == 'bad-utf8-nonfinal-fragment-after-control':
+        if in_fragment or compression:
+            # with an extension negotiated lomond validates text only when the message is complete
+            # (the weaker reading adopted for C05); an unfinished message is then not judged
+            return None
+        # text in >= 3 fragments, a control frame between them, the invalid byte in a NON-final
+        # continuation: it must be reported when that fragment arrives, not when the message ends
+        return F(1, VM, fin=0) + F(p['ctl'], b'ok') + F(0, p['bad'] + VM, fin=0)
     if cls == 'bad-utf8-close-reason':
         return F(8, struct.pack('!H', 1000) + p['bad'])
     raise ValueError(cls)
@@ -171,6 +179,9 @@ def violation_params(rnd=None):
         out.append(('bad-utf8-later-fragment', dict(bad=bad)))
         out.append(('bad-utf8-close-reason', dict(bad=bad)))
     out.append(('bad-utf8-split-char', {}))
+    for bad in BAD_UTF8[:6]:
+        for ctl in (9, 10):
+            out.append(('bad-utf8-nonfinal-fragment-after-control', dict(bad=bad, ctl=ctl)))
     return out
 
 
@@ -226,6 +237,8 @@ def cases(tier, seed, i, n):
                     if cls == 'control-too-long' and p['n'] > 1000 and seg == 'bytewise':
                         continue
                     yield dict(kind='pos', k=k, cls=cls, p=p, seg=seg, cutseed=k * 1000 + vi, z=False)
+                    if (vi + k) % 2 == 0 and seg == 'coalesced':
+                        yield dict(kind='pos', k=k, cls=cls, p=p, seg=seg, cutseed=k * 1000 + vi, z=False, app_close=True)
         rnd = random.Random(seed * 7919 + 4)
         count = 8000 if tier == 'quick' else 120000
         for idx in range(count):
@@ -241,7 +254,7 @@ def cases(tier, seed, i, n):
             yield dict(kind='gen', msgs=msgs, open=rnd.random() < 0.4, open_ping=rnd.random() < 0.5,
                        cls=cls, p=p, seg=rnd.choice(('coalesced', 'random', 'random', 'bytewise', 'perframe')),
                        cutseed=rnd.randrange(1 << 30), z=rnd.random() < 0.25,
-                       suffix=rnd.choice(('text', 'binary+ping', 'close', 'none')))
+                       suffix=rnd.choice(('text', 'binary+ping', 'close', 'none')), app_close=rnd.random() < 0.2)
     return gen.shard(allcases(), i, n)
 
 
@@ -276,6 +289,11 @@ def run_stream(case, acc):
     if vf is None:
         acc.count2('oracle', 'incompatible_skipped')
         return
+    if case['cls'] == 'bad-utf8-nonfinal-fragment-after-control':
+        exp = exp + [('ping' if case['p']['ctl'] == 9 else 'pong', b'ok')]
+        if case['p']['ctl'] == 9:
+            pings = pings + [b'ok']
+    closing = bool(case.get('app_close'))
     suffix = b''
     sfx = case.get('suffix', 'text')
     if sfx in ('text',):
@@ -297,9 +315,12 @@ def run_stream(case, acc):
         rnd = random.Random(case['cutseed'])
         cuts = [hl + c for c in gen.rand_cuts(rnd, len(stream))] + [hl]
     w = H.World(H.hs_server([('raw', stream), ('eof',)], HS_DEFLATE if z else HS_PLAIN), cuts=cuts)
-    run = H.drive(w, ws_kwargs=dict(compress=True) if z else None, connect_kwargs=dict(ping_rate=0))
+    policy = H.TablePolicy({'poll#0': [['close', 1000, 'app-close']]}) if closing else None
+    run = H.drive(w, ws_kwargs=dict(compress=True) if z else None, connect_kwargs=dict(ping_rate=0), policy=policy)
     acc.count2('oracle', 'violation_runs_judged')
-    key, detail = judge_violation_run(run, w, exp, pings)
+    if closing:
+        acc.count2('oracle', 'violation_while_client_closing_runs')
+    key, detail = judge_violation_run(run, w, exp, pings, closing)
     for ev in run.events:
         acc.count2('events', ev.name)
     if key:
@@ -307,8 +328,8 @@ def run_stream(case, acc):
         acc.violation(key, 'C04 %s: class=%s param=%r' % (key, case['cls'], case['p']), case, detail)
     else:
         pc = {k: (v if not isinstance(v, (bytes, bytearray)) else v.hex()) for k, v in case['p'].items()}
-        acc.cls('%s/%s/frag%d/z%d/%s/pre%s' % (case['cls'], sorted(pc.items()), int(infrag), int(z), seg,
-                                                case.get('k', 'g')))
+        acc.cls('%s/%s/frag%d/z%d/%s/pre%s/closing%d' % (case['cls'], sorted(pc.items()), int(infrag), int(z), seg,
+                                                case.get('k', 'g'), int(closing)))
         if acc.evaluations % 499 == 3:
             acc.sample(dict(case={k: case[k] for k in ('kind', 'cls', 'p', 'seg')},
                             events=[H.norm(e) for e in run.events if e.name != 'poll'][-3:]))
@@ -328,7 +349,7 @@ def refine_key(key, case):
     return key
 
 
-def judge_violation_run(run, w, exp, pings):
+def judge_violation_run(run, w, exp, pings, closing=False):
     evs = [e for e in run.events if e.name != 'poll']
     names = [e.name for e in evs]
     detail = dict(events=[H.norm(e) for e in evs][-8:], end=run.end, exc=run.exc)
@@ -364,12 +385,17 @@ def judge_violation_run(run, w, exp, pings):
     detail['client_frames'] = sig
     if residue or errors:
         return 'client-wrote-garbage', detail
-    pongs = [(10, p) for p in pings]
-    if sig[:len(pongs)] != pongs:
-        return 'client-frames-wrong', detail
-    rest = sig[len(pongs):]
-    if len(rest) > 1 or (rest and rest[0][0] != 8):
-        return 'client-wrote-after-violation', detail
+    if closing:
+        # the application closed right after Ready: its Close is the only frame (no pongs while closing)
+        if [x[0] for x in sig] != [8]:
+            return 'client-frames-wrong-while-closing', detail
+    else:
+        pongs = [(10, p) for p in pings]
+        if sig[:len(pongs)] != pongs:
+            return 'client-frames-wrong', detail
+        rest = sig[len(pongs):]
+        if len(rest) > 1 or (rest and rest[0][0] != 8):
+            return 'client-wrote-after-violation', detail
     for f in frames:
         pr = refws.frame_problems(f)
         if pr:
